@@ -202,6 +202,9 @@ def run(ctx):
 
     # ---- 1. model pass: the repaired design satisfies the property; the modelled defect does not
     runs = []
+    if os.environ.get("VERIF_C16_SKIP_MODEL"):      # development aid only (mutant loops)
+        ctx.notes.append("model pass skipped (VERIF_C16_SKIP_MODEL)")
+        return _after_model(ctx, quick, rnd, binary, defect, runs)
     mc = vf.tlc_must_pass(ctx, "MC_Cluster", "MC_Cluster_quick.cfg", timeout=900, workers=WORKERS, heap="6g")
     runs.append(dict(cfg="MC_Cluster_quick", distinct=mc.distinct, generated=mc.generated, depth=mc.depth))
     mf = vf.tlc_must_pass(ctx, "MC_Cluster", "MC_Cluster_filter.cfg", timeout=900, workers=WORKERS, heap="6g")
@@ -214,6 +217,10 @@ def run(ctx):
     if not quick:
         mt = vf.tlc_must_pass(ctx, "MC_Cluster", "MC_Cluster_thorough.cfg", timeout=1500, workers=WORKERS, heap="14g")
         runs.append(dict(cfg="MC_Cluster_thorough", distinct=mt.distinct, generated=mt.generated, depth=mt.depth))
+    return _after_model(ctx, quick, rnd, binary, defect, runs)
+
+
+def _after_model(ctx, quick, rnd, binary, defect, runs):
     states = sum(r["distinct"] for r in runs)
     trans = sum(r["generated"] for r in runs)
 
